@@ -123,6 +123,15 @@ func (h *NFSProcedureHandler) handleCreate(body io.Reader, reply *RPCReply, auth
 		newNode, err = h.server.handler.Lookup(existingPath)
 	} else {
 		newNode, err = h.server.handler.Create(node, name, attrs)
+		if err == nil {
+			// Give the new file the caller's effective identity (or the ids a root
+			// caller asked for), as MKDIR and SYMLINK do.
+			if cerr := h.server.handler.fs.Chown(existingPath, int(newUID), int(newGID)); cerr != nil {
+				if h.server.options.Debug {
+					h.server.logger.Printf("CREATE: Chown failed for '%s': %v", existingPath, cerr)
+				}
+			}
+		}
 	}
 	if err != nil {
 		// For EXCLUSIVE creates, if file already exists, return success
